@@ -56,6 +56,11 @@ type c12Target struct {
 		S string
 		R []gojson.RawMessage
 	}
+	// ,string members: the decoder runs a second decoder over the string's content
+	QS string        `json:"qs,string"`
+	QN gojson.Number `json:"qn,string"`
+	QI int64         `json:"qi,string"`
+	QP *string       `json:"qp,string"`
 }
 
 func inRange(p, base uintptr, capacity int) bool {
@@ -231,8 +236,15 @@ func burst(r *rand.Rand, n int) {
 			gojson.NewEncoder(&b).Encode(struct{ A, B string }{s, s})
 			var x struct{ A string }
 			gojson.NewDecoder(&b).Decode(&x)
+			var t c12Target
+			gojson.NewDecoder(strings.NewReader(`{"qs":` + quote(`"`+s[:len(s)/3]+`"`) + `,"qi":"77","qn":"1.5e3","qp":` + quote(`"`+s[:len(s)/4]+`"`) + `}`)).Decode(&t)
 		}
 	}
+}
+
+func quote(s string) string {
+	b, _ := stdjson.Marshal(s)
+	return string(b)
 }
 
 func c12Doc(r *rand.Rand) []byte {
@@ -245,6 +257,7 @@ func c12Doc(r *rand.Rand) []byte {
 		`"M":{` + str() + `:` + str() + `,"k2":` + str() + `}`, `"Sl":[` + str() + `,` + str() + `]`, `"P":` + str(), `"UJ":` + raw(), `"UT":` + str(),
 		`"UJs":[` + raw() + `,` + raw() + `]`, `"MT":{"a":` + str() + `,"b":` + str() + `}`, `"SR":` + raw(), `"Arr":[` + str() + `,` + str() + `]`,
 		`"In":{"S":` + str() + `,"R":[` + raw() + `,` + raw() + `]}`,
+		`"qs":` + quote(str()), `"qn":"` + string(gen.NumLit(r)) + `"`, `"qi":"` + fmt.Sprint(r.Int63()-r.Int63()) + `"`, `"qp":` + quote(str()),
 	}
 	r.Shuffle(len(parts), func(i, j int) { parts[i], parts[j] = parts[j], parts[i] })
 	n := 3 + r.Intn(len(parts)-2)
